@@ -257,6 +257,8 @@ ALPHABETS = {
     # with complete one-record lookups (every decoder may read its window, none may change it or feed it back)
     'VMF': (['BSC_getpid', 'MACH_vmfault', 'RealFaultAddressInternal'], (1,)),
     'REN': (['BSC_rename', 'VFS_LOOKUP', 'BSC_getpid'], (1,)),
+    # the two-record declarations: a name record is a decodable record of its own, whatever its thread emitted before
+    'NAME': (['TRACE_DATA_NEWTHREAD', 'TRACE_STRING_NEWTHREAD', 'TRACE_DATA_EXEC', 'TRACE_STRING_EXEC', 'BSC_getpid'], (1, 2)),
     'SIDE': (['BSC_getpid', 'TRACE_DATA_THREAD_TERMINATE', 'TRACE_DATA_NEWTHREAD', 'TRACE_DATA_THREAD_TERMINATE_PID', 'PERF_THD_Data'], (1, 2)),
 }
 _ALPHA = {}
@@ -292,8 +294,8 @@ class C04(Check):
 
     def plan(self):
         if self.tier == 'quick':
-            return [('A40', 4), ('FRAG', 3), ('T3', 3), ('C7', 4), ('A16+map', 4), ('T3+map', 3), ('SIDE', 3), ('A16+gen', 4), ('C7+gen', 3), ('T3+gen', 3), ('A16+ts', 4), ('FRAG+ts', 3), ('A16+same', 4), ('A16+same+gen', 4), ('FRAG+same', 3), ('TWIN', 4), ('VMF', 5), ('REN', 5)]
-        return [('A40', 5), ('A16', 6), ('FRAG', 4), ('A48', 4), ('T3', 4), ('C7', 5), ('A40+map', 4), ('T3+map', 4), ('SIDE', 4), ('A40+gen', 4), ('C7+gen', 4), ('T3+gen', 4), ('A40+ts', 4), ('FRAG+ts', 4), ('A40+same', 4), ('A16+same+gen', 5), ('FRAG+same', 4), ('TWIN', 5), ('VMF', 6), ('REN', 6)]
+            return [('A40', 4), ('FRAG', 3), ('T3', 3), ('C7', 4), ('A16+map', 4), ('T3+map', 3), ('SIDE', 3), ('A16+gen', 4), ('C7+gen', 3), ('T3+gen', 3), ('A16+ts', 4), ('FRAG+ts', 3), ('A16+same', 4), ('A16+same+gen', 4), ('FRAG+same', 3), ('TWIN', 4), ('VMF', 5), ('REN', 5), ('NAME', 3)]
+        return [('A40', 5), ('A16', 6), ('FRAG', 4), ('A48', 4), ('T3', 4), ('C7', 5), ('A40+map', 4), ('T3+map', 4), ('SIDE', 4), ('A40+gen', 4), ('C7+gen', 4), ('T3+gen', 4), ('A40+ts', 4), ('FRAG+ts', 4), ('A40+same', 4), ('A16+same+gen', 5), ('FRAG+same', 4), ('TWIN', 5), ('VMF', 6), ('REN', 6), ('NAME', 4)]
 
     def bounds(self):
         return {'spaces': [{'alphabet': a, 'symbols': len(alphabet(a).syms), 'depth': d,
@@ -377,6 +379,29 @@ class C04(Check):
                     ref.append((type(r).__name__, tuple(x.timestamp for x in r.ktraces)))
             got = {}
             got['feed_generator'] = [(type(r).__name__, tuple(x.timestamp for x in r.ktraces)) for r in TracesParser(alpha.tc, {}, {}).feed_generator(iter(evs))]
+            # ONE parser object given the stream in batches: two feed_generator() calls cut at every position (an empty batch
+            # included), and feed() / feed_generator() in turns - the records it is given, in order, are the stream
+            def sig(r):
+                return (type(r).__name__, tuple(x.timestamp for x in r.ktraces))
+            for cut in range(len(evs) + 1):
+                pb = TracesParser(alpha.tc, {}, {})
+                try:
+                    got[f'feed_generator-in-two-batches@{cut}'] = [sig(r) for r in pb.feed_generator(iter(evs[:cut]))] + [sig(r) for r in pb.feed_generator(iter(evs[cut:]))]
+                except Exception as ex:
+                    got[f'feed_generator-in-two-batches@{cut}'] = 'RAISED ' + type(ex).__name__
+            pb = TracesParser(alpha.tc, {}, {})
+            turns = []
+            try:
+                for i, e in enumerate(evs):
+                    if i % 2:
+                        turns += [sig(r) for r in pb.feed_generator(iter([e]))]
+                    else:
+                        r = pb.feed(e)
+                        if r is not None:
+                            turns.append(sig(r))
+            except Exception as ex:
+                turns = 'RAISED ' + type(ex).__name__
+            got['feed-and-feed_generator-in-turns'] = turns
             # positions are recovered from the record timestamps (pos + 1, so that the first byte of the file's first record is not 0)
             recs = [B.rec(e.timestamp + 1, tid=e.tid, debugid=e.debugid, data=e.data) for e in evs]
             for label, blob in (('v2', B.v2([(1, 10, 'p')], 0, recs)), ('v3', B.v3([(1, 10, 'p')], [recs])), ('v3-chunk-per-record', B.v3([(1, 10, 'p')], [[r] for r in recs]))):
@@ -387,7 +412,7 @@ class C04(Check):
             acc.case(nontrivial=bool(ref), transitions=5 * len(hist), outcome=None)
             for label, g in got.items():
                 if g != ref:
-                    acc.violation('entry-points-disagree:' + label, {'alphabet': a + '@entry', 'history': list(hist), 'readable': alpha.describe(hist)},
+                    acc.violation('entry-points-disagree:' + label.split('@')[0], {'alphabet': a + '@entry', 'history': list(hist), 'readable': alpha.describe(hist)},
                                   {'feed': repr(ref)[:300], label: repr(g)[:300]})
 
     def run_shard(self, desc, acc):
